@@ -6,7 +6,13 @@ import CnbVerif.Lemmas.Pipes
 Property theorems only. Models: `Model/MappedWrite.lean` (A: `MappedWrite`, `TeeWrite` of write.rs — the mapped writer
 *as it is after the minimal fix of D5*: the remainder is flushed on drop/unwrap only when non-empty) and `Model/Pipes.lean`
 (B: child script, two bounded pipes, one copier thread per stream, of command.rs). Specification:
-`Spec/Streaming.lean` (whole-input split at markers; per-stream bytes of a script).
+`Spec/Streaming.lean` (whole-input split at markers; per-stream bytes of a script; the input of a sequence of `write` and
+`flush` calls).
+
+`flush()` is part of the op alphabet of model A (`MappedWrite::flush` / `TeeWrite::flush` only forward, the pending buffer is
+kept): a copier that flushes the supplied writer after every pipe read, or a caller who flushes for a live view, must not turn
+read boundaries into segment boundaries. Wrappers are modelled by the calls they make on what they wrap, so the theorems about
+`tee` into `mapped`, `mapped` into `tee`, `mapped` of `mapped` are compositions of the same functions.
 
 The streaming half (B) is a statement about the model; OS pipes, the scheduler and threads are not exhibited by it, their
 behaviour is sampled by the correspondence under a watchdog (claim labelled partial in `propcfg/C19.py`).
@@ -54,6 +60,58 @@ theorem mapped_output_short_writes (m : Nat) (f : Bytes → Bytes) (script : Lis
   simp only [runS, run, finishS, finish, St.init, h.1, h.2, writeAll_content]
   rfl
 
+/-- **M1+M2 with `flush()` in the op alphabet (regardless of how the input was split across write calls — and of whether
+and where the caller flushes in between).** For every marker, mapping function, interleaving `ops` of writes (`some chunk`)
+and flushes (`none`) — flushes first, last, twice in a row, none at all — and every short-write / interrupt behaviour `script`
+of the inner writer: what the inner writer holds once the mapped writer is dropped / unwrapped is `mappedOutput` of the
+concatenated input. A flush is forwarded to the inner writer and leaves the pending buffer alone
+(`MappedWrite::flush` of write.rs); it never turns a partial segment into a segment. By induction over `ops`
+(`foldl_callT_sim`). -/
+theorem mapped_output_independent_of_flushes (m : Nat) (f : Bytes → Bytes) (script : List Nat) (ops : List (Option Bytes)) :
+    sinkRunS script [] (mappedCalls m f ops) = mappedOutput m f (writtenBytes ops) := by
+  rw [sinkRunS_content, List.nil_append, mappedCalls_content]
+
+/-- The same as a statement about two histories: same concatenated input ⇒ same output and same number of flushes seen by
+the inner writer as were given, whatever the two splits and the two placements of flushes; in particular the flush-free
+model `run` (`output_spec`) describes every history with flushes removed. -/
+theorem flushes_change_nothing (m : Nat) (f : Bytes → Bytes) (script : List Nat) (ops : List (Option Bytes)) (chunks : List Bytes)
+    (h : writtenBytes ops = chunks.flatten) :
+    sinkRunS script [] (mappedCalls m f ops) = run m f chunks ∧ sinkFlushes (mappedCalls m f ops) = sinkFlushes ops := by
+  rw [mapped_output_independent_of_flushes, output_spec, h]
+  exact ⟨rfl, mappedCalls_flushes m f ops⟩
+
+/-- **M3 with flushes (the tee writer gives both targets the full input).** Both targets of a tee — plain or short-writing —
+hold exactly the concatenated input after any interleaving of writes and flushes, and each has received every flush. -/
+theorem tee_full_input_with_flushes (sa sb : List Nat) (ops : List (Option Bytes)) :
+    sinkRunS sa [] (teeCalls ops).1 = teeOutput (writtenBytes ops) ∧ sinkRunS sb [] (teeCalls ops).2 = teeOutput (writtenBytes ops) ∧
+    sinkFlushes (teeCalls ops).1 = sinkFlushes ops ∧ sinkFlushes (teeCalls ops).2 = sinkFlushes ops := by
+  simp [teeCalls, teeOutput, sinkRunS_content, sinkContent_eq_writtenBytes]
+
+/-- **Compositions.** `tee(a, mapped(b, m, f))`: `a` holds the input, `b` its mapping. `mapped(tee(a, b), m, f)`: both hold the
+mapping. `mapped(mapped(w, m₂, g), m, f)`: `w` holds the `g`-mapping (at `m₂`) of the `f`-mapping (at `m`) of the input —
+for every interleaving of writes and flushes and all short-write behaviours of the targets. -/
+theorem compositions_independent_of_flushes (m m₂ : Nat) (f g : Bytes → Bytes) (sa sb : List Nat) (ops : List (Option Bytes)) :
+    (sinkRunS sa [] (teeCalls ops).1 = writtenBytes ops ∧
+     sinkRunS sb [] (mappedCalls m f (teeCalls ops).2) = mappedOutput m f (writtenBytes ops)) ∧
+    (sinkRunS sa [] (teeCalls (mappedCalls m f ops)).1 = mappedOutput m f (writtenBytes ops) ∧
+     sinkRunS sb [] (teeCalls (mappedCalls m f ops)).2 = mappedOutput m f (writtenBytes ops)) ∧
+    sinkRunS sa [] (mappedCalls m₂ g (mappedCalls m f ops)) = mappedOutput m₂ g (mappedOutput m f (writtenBytes ops)) := by
+  refine ⟨⟨?_, ?_⟩, ⟨?_, ?_⟩, ?_⟩
+  · simp [teeCalls, sinkRunS_content, sinkContent_eq_writtenBytes]
+  · simp [teeCalls, mapped_output_independent_of_flushes]
+  · simp [teeCalls, mapped_output_independent_of_flushes]
+  · simp [teeCalls, mapped_output_independent_of_flushes]
+  · rw [mapped_output_independent_of_flushes, ← sinkContent_eq_writtenBytes, mappedCalls_content]
+
+/-- **The flush statement discriminates.** A `flush` that maps and emits the pending buffer (instead of keeping it) makes the
+output depend on where the caller flushes: `line_mapped(w, add_prefix("> "))` given `write("a"); flush(); write("b\n")` would
+emit `"> a> b\n"`; the property (and the model of the code) give `"> ab\n"`. -/
+theorem emitting_flush_violates_spec :
+    sinkContent (mappedCallsEmitting 10 (addPrefix [62, 32]) [some [97], none, some [98, 10]]) ≠
+      mappedOutput 10 (addPrefix [62, 32]) (writtenBytes [some [97], none, some [98, 10]]) ∧
+    sinkContent (mappedCalls 10 (addPrefix [62, 32]) [some [97], none, some [98, 10]]) = [62, 32, 97, 98, 10] := by
+  decide
+
 /-- D5, the defect the unfixed code has: applying `f` to an *empty* remainder. `line_mapped(w, add_prefix("> "))` fed
 `"a\nb\n"` yields `"> a\n> b\n> "`; the property (and the fixed model) give `"> a\n> b\n"`. -/
 theorem unfixed_drop_violates_spec :
@@ -64,6 +122,10 @@ theorem unfixed_drop_violates_spec :
 example : run 10 (addPrefix [62]) [[97], [], [10, 98, 10, 10], [99]] = [62, 97, 10, 62, 98, 10, 62, 10, 62, 99] := by decide
 example : mappedOutput 10 (addPrefix [62]) [97, 10, 98, 10] = [62, 97, 10, 62, 98, 10] := by decide
 example : segments 10 [97, 10, 10, 98] = ([[97, 10], [10]], [98]) := by decide
+/-- flushes at the start, inside a segment, twice in a row and at the end; the inner writer sees all five -/
+example : mappedCalls 10 (addPrefix [62]) [none, some [97], none, none, some [10, 98], none, some [10, 99], none] =
+    [none, none, none, some [62, 97, 10], none, some [62, 98, 10], none, some [62, 99]] := by decide
+example : writtenBytes [none, some [97], none, none, some [10, 98], none, some [10, 99], none] = [97, 10, 98, 10, 99] := by decide
 /-- a second target taking one byte per call, a first one interrupted on every other call -/
 example : teeRunS [0, 3, 0, 3] [1, 1, 1] [[1, 2, 3], [4]] = ⟨[1, 2, 3, 4], [1, 2, 3, 4], [], []⟩ := by decide
 
@@ -72,6 +134,12 @@ example : teeRunS [0, 3, 0, 3] [1, 1, 1] [[1, 2, 3], [4]] = ⟨[1, 2, 3, 4], [1,
 /-- **Tie to the source.** `write_child_process_output` spawns both copier threads before joining either, inside one
 `thread::scope` (regenerated from command.rs on every run): the discipline the theorems below are about is the code's. -/
 theorem copier_threads_spawned_before_joined : codeMode = .parallel := by decide
+
+/-- **Tie to the source, copier bodies.** The closure of each of the two copier threads is exactly
+`std::io::copy(<pipe end>, <writer>)` (regenerated from command.rs on every run; a hand-written loop in its place — which
+could call anything on the writer between the writes — makes the translator report the tie as broken): the copier step of
+the model, "forward what was read, in order, until EOF", is about this call. -/
+theorem copiers_are_plain_io_copy : Gen.Sites.copierBodies = [.ioCopy, .ioCopy] := by decide
 
 /-- **M4a progress (no deadlock).** With pipes of any positive capacity and any child script, no state reachable under
 the code's discipline is stuck: either the call has returned (`final`) or some process or thread can move. -/
